@@ -46,3 +46,11 @@ void lp_set_output_language(lp_output_language_t lang) {
 void lp_set_upolynomial_var_symbol(const char* x) {
   set_upolynomial_var_symbol(x);
 }
+
+#ifdef LIBPOLY_VERIF
+/* Verification-only switches (never defined in a normal build):
+ *  bit 0: lp_upolynomial_gcd discards the result of the heuristic gcd, so that the subresultant gcd runs
+ *  bit 1: coefficient_gcd_pp_univariate reports "not precise", so that the multivariate PRS runs
+ *  bit 2: upolynomial_roots_find_Zp uses the randomised finder also below the brute-force threshold */
+int lp_verif_flags = 0;
+#endif
